@@ -52,8 +52,8 @@ def st_idx(draw, sp1, sp2):
     occ = list(draw(st.permutations(list(ALPHABET["occ"]))))[:n_o]
     virt = list(draw(st.permutations(list(ALPHABET["virt"]))))[:n_v]
     if draw(st.integers(0, 3)) == 0:
-        occ = [n + str(draw(st.sampled_from([1, 2, 9]))) for n in occ]
-        virt = [n + str(draw(st.sampled_from([1, 4]))) for n in virt]
+        occ = [n + str(draw(st.sampled_from([1, 2]))) for n in occ]
+        virt = [n + str(draw(st.sampled_from([1, 2]))) for n in virt]
     i1 = occ[:sp1.count("h")] + virt[:sp1.count("p")]
     i2 = occ[sp1.count("h"):] + virt[sp1.count("p"):]
     if draw(st.booleans()):
@@ -113,8 +113,11 @@ def run_case(case):
     if case["sub"] == "precursor":
         if sp1 != sp2:
             sp2 = sp1
-            J = get_symbols([n + "5" for n in case["i1"]])
-            s2 = "".join(n + "5" for n in case["i1"])
+            # second index set: same letters with the other non-generic
+            # number (1 / 2; numbers >= 3 are handed out as generic indices)
+            jn = [n[0] + ("2" if n[1:] != "2" else "1") for n in case["i1"]]
+            J = get_symbols(jn)
+            s2 = "".join(jn)
             tgt = tuple(I) + tuple(J)
         for n in range(1, 5):
             m.alias[f"t{n}cc"] = f"t{n}"
